@@ -38,6 +38,47 @@ func barrier(n int) (wait func(), release func()) {
 func concEngine(rng *Rng, n int, out *Out, args map[string]string) {
 	concReplay(rng.Fork(), n, out)
 	concCipherList(rng.Fork(), n, out)
+	concSalts(rng.Fork(), n, out)
+}
+
+// one key's salt generator used by many connections at once (every response writer of a key shares
+// it, and the authenticator asks it about every incoming salt): each salt it issues must be
+// recognised as its own, by itself and by the independent HMAC implementation
+func concSalts(r *Rng, n int, out *Out) {
+	var bad, total int64
+	for _, size := range []int{32, 24} {
+		secret := fmt.Sprintf("conc-secret-%d", r.Intn(1000))
+		g := service.NewServerSaltGenerator(secret)
+		workers := 8
+		per := 200 * n
+		wait, release := barrier(workers)
+		var wg sync.WaitGroup
+		for w := 0; w < workers; w++ {
+			wg.Add(1)
+			go func() {
+				defer wg.Done()
+				wait()
+				for i := 0; i < per; i++ {
+					salt := make([]byte, size)
+					if err := g.GetSalt(salt); err != nil {
+						atomic.AddInt64(&bad, 1)
+						continue
+					}
+					atomic.AddInt64(&total, 1)
+					if !g.IsServerSalt(salt) || !specIsServerSalt(secret, salt) {
+						if atomic.AddInt64(&bad, 1) <= 2 {
+							out.Oracle("C08", "with %d connections of one key issuing salts at the same time, a %d-byte salt the server issued is not recognisable as its own (by the generator: %v, by the specification: %v)", workers, size, g.IsServerSalt(salt), specIsServerSalt(secret, salt))
+							out.Oracle("C19", "concurrent use of one key's salt generator produced a salt it does not recognise")
+						}
+					}
+				}
+			}()
+		}
+		release()
+		wg.Wait()
+	}
+	out.Op("conc salts", fmt.Sprintf("unrecognised=%d", bad))
+	out.Stat("conc.salts", int(total))
 }
 
 // copies of one fresh handshake plus unrelated fresh handshakes, all released together, total
